@@ -8,8 +8,20 @@ the exposes the property's proviso demands.  --prop C02: adversarial handlers dr
 foreground tag id+1 so that the writer of a cell can be identified on the grid.
 exhaustive: every history of <= 4 operations from a fixed alphabet over a fixed tree of 3 windows, each followed by a flush.
 
-Kept away from: any operation on a closed window or below one (undefined: the parent chain no longer reaches a root);
-scrolling while an empty (0 x n) window exists (known finding: tickit_rectset_subtract does not terminate)."""
+`scrollch w d r` is the compound step of Props.C01.scrollch_step_full: tickit_window_scroll_with_children, then the
+application moves every child of w by (-d, -r) with set_geometry and no expose, as tickit_window_scroll.3 says it must ("does
+not actually move the child windows").
+
+Domain restrictions (stated in the property's proviso, Props.C01.TreeOp.Ok, not silent omissions):
+  * set_geometry / resize / reposition is never applied to the ROOT window (id 0): by the documentation the root "occupies the
+    entire terminal" (tickit_window.7; tickit_window_get_geometry.3: "its top left corner will be at zero, and its size will give
+    the size of the underlying terminal") and only the library changes its geometry (on_term_resize: the `resize` operation,
+    which is generated).  With it the property is false: Props.C01.root_setGeometry_counterexample.  The harness answers
+    `bad-op` to `geom 0 ...`.
+  * no operation on a closed window or below one (undefined: the parent chain no longer reaches a root).
+Every defect this engine found has been repaired in the library (known/C01.json, known/C02.json: "fixed"), so nothing else is
+avoided: UNFIXED below is empty and the guards that mention it are inert (kept so that a future finding can be fenced off
+without disturbing the random stream)."""
 import argparse, random, json, itertools
 
 ap = argparse.ArgumentParser()
@@ -71,8 +83,9 @@ class Hist:
         return out
 
 
-# Known findings not yet repaired in the library: generated histories stay away from their triggers (each is probed
-# deliberately from corpus/); remove a name here once its fix is in the tree.
+# Findings not yet repaired in the library would be named here and generated histories kept away from their triggers (each
+# probed deliberately from corpus/).  All of them (hidden_root, empty_subtract, scroll_unclipped, root_shrink) are repaired:
+# the set is empty.
 UNFIXED = set()
 
 
@@ -243,7 +256,7 @@ def history(h_index, big):
         elif x < 0.30:
             hs = rng.choice(["hide", "show", "hide", "show"])
             if C02 and hs == "hide" and w == 0 and "hidden_root" in UNFIXED:
-                emit("flush"); stats["flushes"] += 1; h.pending.clear()    # no damage pending when the root is hidden (known finding)
+                emit("flush"); stats["flushes"] += 1; h.pending.clear()    # (inert: repaired) no damage pending when the root is hidden
             emit("%s %d" % (hs, w))
         elif x < 0.42:
             emit("%s %d" % (rng.choice(["raise", "raisefront", "lower", "lowerback"]), w))
@@ -267,7 +280,7 @@ def history(h_index, big):
             else:
                 emit("expose %d %d %d %d %d" % (w, rng.randint(-1, max(0, n)), rng.randint(-2, max(0, k)), rng.randint(1, max(1, n + 1)), rng.randint(1, max(1, k + 2))))
         elif x < 0.80 and not ("empty_subtract" in UNFIXED and any((h.rect[i][2] == 0 or h.rect[i][3] == 0) for i in live)):
-            # (a visible empty window in front makes tickit_rectset_subtract loop for ever: known finding, probed from corpus/)
+            # (inert: repaired in 4a2b0a5) a visible empty window in front made tickit_rectset_subtract loop for ever; probed from corpus/
             if "scroll_unclipped" in UNFIXED:
                 inside = [v for v in live if not sticks_out(h, v, [0, 0, h.rect[v][2], h.rect[v][3]])]
                 if w not in inside and inside and rng.random() < 0.9:
@@ -312,7 +325,7 @@ def history(h_index, big):
         elif x < 0.96 and mode != "m":
             nl = max(1, tl + rng.choice([-3, -2, -1, 0, 1, 2, 3])); nc = max(1, tc + rng.choice([-7, -3, -1, 0, 1, 2, 5]))
             if C02 and "root_shrink" in UNFIXED and (nl < tl or nc < tc):
-                emit("flush"); stats["flushes"] += 1; h.pending.clear()    # no damage pending across a shrink (known finding)
+                emit("flush"); stats["flushes"] += 1; h.pending.clear()    # (inert: repaired) no damage pending across a shrink
             emit("resize %d %d" % (nl, nc))
             tl, tc = nl, nc
             h.rect[0] = [0, 0, tl, tc]
@@ -328,7 +341,7 @@ def history(h_index, big):
 info = {}
 if a.tier == "exhaustive":
     alphabet = ["hide 1", "show 1", "hide 2", "raise 2", "lower 1", "raisefront 3", "lowerback 1", "geom 1 0 1 3 4", "geom 2 2 0 2 5",
-                "expose 3", "scroll 1 1 0", "scroll 2 0 -1", "scrollrect 0 0 0 4 6 -1 0 pen=N", "close 2", "resize 3 5", "resize 5 9", "flush"]
+                "expose 3", "scroll 1 1 0", "scroll 2 0 -1", "scrollrect 0 0 0 4 6 -1 0 pen=N", "scrollch 1 1 0", "close 2", "resize 3 5", "resize 5 9", "flush"]
     nh = 0
     for k in range(1, 5):
         for seq in itertools.product(range(len(alphabet)), repeat=k):
@@ -343,7 +356,7 @@ if a.tier == "exhaustive":
                 if o == "close 2":
                     if closed: bad = True
                     closed = True
-            # known findings not yet repaired: window 2 sticks out of a 3x5 terminal; damage pending across a shrink
+            # (inert: both repaired) window 2 sticks out of a 3x5 terminal; damage pending across a shrink
             small = False; dirty = False
             for o in ops:
                 if o == "flush": dirty = False
@@ -367,7 +380,7 @@ if a.tier == "exhaustive":
                 for o in ops: emit(o)
                 emit("flush")
                 nh += 1
-    info = {"exhaustive_bound": "every history of <= 4 operations from a 17-letter alphabet (hide/show/restack/move/expose/scroll/scrollrect/close/terminal-resize/flush) on a fixed tree of 3 overlapping windows, all three scroll oracles for length <= 3", "histories": nh}
+    info = {"exhaustive_bound": "every history of <= 4 operations from an 18-letter alphabet (hide/show/restack/move/expose/scroll/scrollrect/scroll_with_children+children moved/close/terminal-resize/flush) on a fixed tree of 3 overlapping windows, all three scroll oracles for length <= 3", "histories": nh}
 else:
     H = 5000 if a.tier == "quick" else 40000
     for i in range(H):
